@@ -40,6 +40,12 @@ typedef struct { long a; double b; } S16M;
 typedef struct { long a; long b; long c; } S24;
 typedef struct { long double l; int i; } S32;
 typedef struct { char c[7]; } S7;
+typedef struct { char c[17]; } S17;
+typedef struct { unsigned char c[19]; } S19;
+typedef struct { int a[5]; } S20;
+typedef struct { short h[11]; } S22;
+typedef struct { char c[23]; } S23;
+typedef struct { long a; long b; int c; char d; } S29;
 typedef union { int i; double d; } U8;
 typedef struct { int a : 5; unsigned b : 9; long c : 40; _Bool d : 1; } BF;
 long sink_l; double sink_d; long double sink_ld;
@@ -64,7 +70,9 @@ TYPES = {
 INTS = ['char', 'schar', 'uchar', 'short', 'ushort', 'int', 'uint', 'long', 'ulong']
 FLTS = ['float', 'double', 'ldouble']
 STRUCTS = {'S0': '{}', 'S1': '{1}', 'S8': '{1, 2}', 'S16F': '{1.5, 2.5f}', 'S16M': '{3, 4.5}', 'S24': '{1, 2, 3}',
-           'S32': '{1.25L, 7}', 'S7': '{{1, 2, 3, 4, 5, 6, 7}}', 'U8': '{5}'}
+           'S32': '{1.25L, 7}', 'S7': '{{1, 2, 3, 4, 5, 6, 7}}', 'U8': '{5}',
+           # memory-class aggregates (> 16 bytes) of every tail length modulo 8: pushed on the machine stack when passed by value
+           'S17': '{{1, 2, 3}}', 'S19': '{{4, 5, 6}}', 'S20': '{{1, 2, 3, 4, 5}}', 'S22': '{{7, 8, 9}}', 'S23': '{{1, 2}}', 'S29': '{1, 2, 3, 4}'}
 
 
 def helper_functions():
